@@ -11,7 +11,7 @@ COQ_IMPORTS = ['Prims', 'CaseLib', 'MiniFloat']
 RULE = ('every code of every format (<= 256 each; bfloat sampled + all exponent/mantissa boundaries) is decoded and compared with an exact-rational definition of the format; every one of the 65536 '
         'half-precision inputs (thorough; a stratified 6000 + all rounding boundaries in quick) x every format x mxfp_overflow in {saturate, overflow} is encoded and compared with round-to-nearest-even '
         'computed on fractions; values of every Python type (float, int, bool, numeric str; every zero) through every route that takes a value (keywords of pack included), pack() with '
-        'literal / positional / keyword values mixed, Arrays with scaled dtypes (creation, insertion, astype between scales and formats, dtype re-assignment, operators), scaled Dtypes through every reading route; float64 inputs not representable in half precision (midpoints +-1 ulp, > 65504, subnormal, +-inf, NaN, -0.0); decode-re-encode of every non-NaN code; scaled dtypes. '
+        'literal / positional / keyword values mixed, Arrays with scaled dtypes (creation, insertion, astype between scales and formats, dtype re-assignment, operators), scaled Dtypes through every reading route; float64 inputs not representable in half precision (midpoints +-1 ulp, > 65504, subnormal, +-inf, NaN, -0.0); decode-re-encode of every non-NaN code; scaled dtypes; histories of assignments to the module options - accepted ones and refused ones (values of every type, wrong letter case, deletions) - interleaved with encodings by every route (also through objects made earlier): a refused assignment leaves every option as it was and the encodings follow the setting last set successfully. '
         'non-trivial = an input that is not exactly representable in the target format; distinct by (format, input, mode)')
 ASSUMPTIONS = ['struct.pack(">e") is IEEE round-to-nearest-even to binary16 (CPython)', 'values are compared as exact fractions / bit patterns, never as floats']
 
@@ -136,6 +136,7 @@ def gen_cases(rng, tier):
     yield from gen_packmix(rng, tier)
     yield from gen_arrays(rng, tier)
     yield from gen_scaled_read(rng, tier)
+    yield from gen_optset(rng, tier)
 
 def _gen_base(rng, tier):
     for name in FMT:
@@ -432,6 +433,210 @@ def gen_scaled_read(rng, tier):
         yield {'op': 'scaled_read', 'items': items, 'route': rng.choice(['parse', 'read', 'readlist', 'unpack', 'peeklist', 'peek', 'get_fn', 'array', 'parse_auto', 'read_fn']), 'mode': rng.choice(['saturate', 'overflow']),
                'cls': rng.choice(['Bits', 'BitArray', 'ConstBitStream', 'BitStream']), 'lead': rng.choice([0, 0, 1, 3, 8])}
 
+
+# ---------------------------------------------------------------------------------------------------------------------------------
+# Assignments to the module options - accepted and REFUSED ones - interleaved with encodings.  The setting in force is the one the
+# caller last set successfully: a refused assignment (a value that is not one of the two modes - of any type, in any letter case -,
+# a deletion, a value without a truth value for the boolean options) leaves every option exactly as it was, and every encoding
+# that follows (any route, any format, scaled or not, Arrays, pack) maps overflow as documented for THAT setting.
+# ---------------------------------------------------------------------------------------------------------------------------------
+BAD_MODE_SPECS = [['s', 'clip'], ['s', 'saturated'], ['s', 'overflows'], ['s', ''], ['s', 'Saturate'], ['s', 'SATURATE'], ['s', 'Overflow'], ['s', 'OVERFLOW'], ['s', 'oVERFLOW'], ['s', ' saturate'], ['s', 'overflow '],
+                  ['s', 'saturate\n'], ['s', 'sat'], ['s', 'o'], ['s', 'none'], ['s', 'True'], ['s', 'saturate,overflow'], ['strsub', 'Overflow'], ['none'], ['b', True], ['b', False], ['i', 0], ['i', 1], ['i', 2], ['i', -1],
+                  ['f', 1.5], ['f', 0.0], ['nan'], ['bytes', 'overflow'], ['bytes', 'saturate'], ['list', ['overflow']], ['list', []], ['tuple', ['saturate', 'overflow']], ['tuple', ['overflow']], ['set', ['overflow']],
+                  ['dict', 'overflow'], ['notruth'], ['type'], ['bytearray', 'overflow']]
+GOOD_MODE_SPECS = [['s', 'saturate'], ['s', 'overflow'], ['s', 'saturate'], ['s', 'overflow'], ['strsub', 'saturate'], ['strsub', 'overflow'], ['built', 'saturate'], ['built', 'overflow']]
+BOOL_SPECS = [['b', True], ['b', False], ['b', True], ['b', False], ['i', 0], ['i', 1], ['i', 7], ['s', ''], ['s', 'x'], ['none'], ['f', 0.0], ['list', []], ['list', [0]], ['notruth'], ['notruth']]
+HUGE = [1e6, -1e6, 65504.0, -70000.0, math.inf, -math.inf, 1e300, -1e300, 500.0, 464.0, 465.0, 480.0, -449.0, 448.0, -448.0, 57344.0, 61440.0, 61439.0, -61440.0, 65520.0, 1000.0, -1000.0, 3e38, 7e7, 1e30]
+MODE_FMTS = ['e4m3mxfp', 'e5m2mxfp']
+
+KEPT_HOWS = ['dtype_build', 'scaled_build', 'array_append', 'array_setitem', 'array_extend', 'scaled_array_append', 'bitarray_setattr', 'dtype_of_dtype_build', 'array_imul']
+KEPT_SCALE = 4
+
+class _NoTruth:
+    def __bool__(self): raise ValueError('neither true nor false')
+class _Str(str): pass
+
+def spec_value(spec):
+    k = spec[0]
+    if k == 's': return spec[1]
+    if k == 'strsub': return _Str(spec[1])
+    if k == 'built': return ''.join(list(spec[1]))           # an equal string that is not the interned literal
+    if k == 'none': return None
+    if k in ('b', 'i', 'f'): return spec[1]
+    if k == 'nan': return float('nan')
+    if k == 'bytes': return spec[1].encode()
+    if k == 'bytearray': return bytearray(spec[1].encode())
+    if k == 'list': return list(spec[1])
+    if k == 'tuple': return tuple(spec[1])
+    if k == 'set': return set(spec[1])
+    if k == 'dict': return {spec[1]: 1}
+    if k == 'notruth': return _NoTruth()
+    if k == 'type': return str
+    raise AssertionError(spec)
+
+def spec_is_mode(spec): return spec[0] in ('s', 'strsub', 'built') and spec[1] in ('saturate', 'overflow')
+
+def gen_optset(rng, tier):
+    for ci in range(30 if tier == 'quick' else 500):
+        steps = []
+        mode, lsb0 = 'saturate', False
+        def enc():
+            r = rng.random()
+            name = rng.choice(MODE_FMTS) if r < 0.85 else rng.choice(ALLF)
+            if rng.random() < 0.2:
+                # objects made once per history (under whatever setting was in force then) and used again now: they follow the setting in force NOW
+                return ['enc', {'op': 'kept', 'fmt': rng.choice(MODE_FMTS), 'val': fspec(rng.choice(HUGE)), 'how': rng.choice(KEPT_HOWS)}]
+            if r < 0.8 or lsb0:
+                v = rng.choice(HUGE) if rng.random() < 0.8 else val_of(rand_val(rng, name))
+                val = fspec(v) if isinstance(v, float) else rand_val(rng, name)
+                if rng.random() < 0.1 and isinstance(v, float) and math.isfinite(v) and v == int(v) and abs(v) < 2 ** 60: val = ['i', int(v)]
+                route = rng.choice(LSB0_OK if lsb0 else VAL_ROUTES)
+                c = {'op': 'encode_val', 'fmt': name, 'val': val, 'route': route, 'mode': None, 'key': rng.choice(KW_NAMES), 'cls': rng.choice(['Bits', 'BitArray', 'ConstBitStream', 'BitStream']), 'scale': None, 'lsb0': False}
+                if route in ('setattr', 'append_token'): c['cls'] = rng.choice(['BitArray', 'BitStream'])
+                if route in SCALABLE and val[0] == 'f' and rng.random() < 0.3:
+                    c['scale'] = rng.choice([2, 4, 0.5, 8, 2 ** -3])
+                    x = val_of(val)
+                    if not math.isinf(x) and abs(x) < 1e290: c['val'] = fspec(x * c['scale'])
+                if route in ('token', 'stream_add', 'append_token') and c['val'][0] == 'b': c['val'] = ['i', int(c['val'][1])]
+                return ['enc', c]
+            if r < 0.9:
+                toks = []
+                for _ in range(rng.choice([1, 2, 3])):
+                    nm = rng.choice(MODE_FMTS); v = rng.choice(HUGE)
+                    how = rng.choice(['kw', 'pos', 'lit']) if not math.isinf(v) else rng.choice(['kw', 'pos'])
+                    toks.append({'fmt': nm, 'how': how, 'key': f'k{len(toks)}' if how == 'kw' else None, 'val': fspec(v)})
+                return ['enc', {'op': 'packmix', 'toks': toks, 'aslist': rng.choice([None, None, 'each']), 'mode': None, 'extra': {}}]
+            nm = rng.choice(MODE_FMTS)
+            sc = rng.choice([None, None, 2, 0.25])
+            sts = [rng.choice([['append', fspec(rng.choice(HUGE))], ['op', 'mul', rng.choice([64, 1000, -512])], ['astype', rng.choice(MODE_FMTS), rng.choice([None, 4]), 'dtype', True], ['insert', 0, fspec(rng.choice(HUGE))],
+                               ['extend', [fspec(rng.choice(HUGE))]], ['op', 'add', 1e5]]) for _ in range(rng.choice([1, 2, 3]))]
+            return ['enc', {'op': 'array', 'fmt': nm, 'scale': sc, 'init': [fspec(rng.choice(HUGE + [1.0, -3.0])) for _ in range(rng.choice([1, 2, 4]))], 'steps': sts, 'mode': None, 'how': 'dtype'}]
+        if ci % 2: steps.append(['set', 'mxfp_overflow', rng.choice(GOOD_MODE_SPECS), 'assign'])
+        for _ in range(rng.choice([4, 8, 14])):
+            r = rng.random()
+            if r < 0.45:
+                steps.append(['set', 'mxfp_overflow', rng.choice(BAD_MODE_SPECS), rng.choice(['assign', 'assign', 'assign', 'assign', 'setattr_type', 'del', 'iadd'])])
+            elif r < 0.7: steps.append(['set', 'mxfp_overflow', rng.choice(GOOD_MODE_SPECS), rng.choice(['assign', 'assign', 'setattr_type'])])
+            elif r < 0.85:
+                steps.append(['set', rng.choice(['lsb0', 'bytealigned']), rng.choice(BOOL_SPECS), rng.choice(['assign', 'assign', 'assign', 'del'])])
+            elif r < 0.9: steps.append(['set', rng.choice(['MXFP_OVERFLOW', 'mxfp_overflw', 'Mxfp_Overflow', 'overflow', 'mxfpoverflow']), rng.choice(GOOD_MODE_SPECS), 'assign'])      # another attribute: no option is touched
+            else: steps.append(['set', 'lsb0', ['b', False], 'assign'])
+            st = steps[-1]
+            if st[3] == 'assign' or st[3] == 'setattr_type':
+                if st[1] == 'mxfp_overflow' and spec_is_mode(st[2]): mode = st[2][1]
+                if st[1] == 'lsb0' and st[2][0] != 'notruth': lsb0 = bool(spec_value(st[2]))
+            for _ in range(rng.choice([1, 2, 3])): steps.append(enc())
+        yield {'op': 'optset', 'fmt': '*', 'steps': steps}
+
+def _canon_opt(v): return v if isinstance(v, (bool, int, str, type(None))) and not isinstance(v, _Str) else (str(v) if isinstance(v, _Str) else 'R:' + repr(v)[:60])
+
+def run_optset(c):
+    import bitstring
+    o = bitstring.options
+    nc0 = o.no_color
+    out = []
+    junk = []
+    kept = {}
+    def run_kept(sub):
+        from bitstring import Dtype, Array, BitArray
+        name, v, how = sub['fmt'], val_of(sub['val']), sub['how']
+        def get(key, make):
+            if (name, key) not in kept: kept[(name, key)] = make()
+            return kept[(name, key)]
+        def f():
+            if how == 'dtype_build': return get('dtype', lambda: Dtype(name)).build(v).bin
+            if how == 'dtype_of_dtype_build': return get('dtype2', lambda: Dtype(Dtype(name))).build(v).bin
+            if how == 'scaled_build': return get('scaled', lambda: Dtype(name, scale=KEPT_SCALE)).build(v).bin
+            if how in ('array_append', 'array_setitem', 'array_extend', 'array_imul'):
+                a = get('array', lambda: Array(name, [1.0]))
+                if how == 'array_append': a.append(v)
+                elif how == 'array_extend': a.extend([v])
+                elif how == 'array_imul':
+                    a[-1] = 1.0; a *= v
+                else: a[-1] = v
+                return a.data.bin[-8:]
+            if how == 'scaled_array_append':
+                a = get('sarray', lambda: Array(Dtype(name, scale=KEPT_SCALE), [1.0])); a.append(v); return a.data.bin[-8:]
+            if how == 'bitarray_setattr':
+                b = get('bitarray', lambda: BitArray(8)); setattr(b, name, v); return b.bin
+            raise AssertionError(how)
+        return attempt(f)
+    def readback(): return [_canon_opt(o.lsb0), _canon_opt(o.bytealigned), _canon_opt(o.mxfp_overflow)]
+    try:
+        o.lsb0 = False; o.bytealigned = False; o.mxfp_overflow = 'saturate'
+        for st in c['steps']:
+            if st[0] == 'set':
+                _, name, spec, how = st
+                v = spec_value(spec)
+                def f():
+                    if how == 'assign': setattr(o, name, v)
+                    elif how == 'setattr_type': type(o).__dict__[name].__set__(o, v)
+                    elif how == 'del': delattr(o, name)
+                    elif how == 'iadd': setattr(o, name, getattr(o, name) + str(spec[1:]))
+                    else: raise AssertionError(how)
+                if name not in ('lsb0', 'bytealigned', 'mxfp_overflow'): junk.append(name)
+                r = attempt(f)
+                out.append(['set', r[0], r[1] if r[0] == 'err' else None, readback()])
+            else:
+                out.append(['enc', _jsonable(run_kept(st[1]) if st[1]['op'] == 'kept' else _dispatch(st[1]))])
+    finally:
+        for name in junk:
+            try: delattr(o, name)
+            except Exception: pass
+        for name, v in (('lsb0', False), ('bytealigned', False), ('mxfp_overflow', 'saturate'), ('no_color', nc0)):
+            try: setattr(o, name, v)
+            except Exception: pass
+    return ('ok', out)
+
+def _jsonable(obs):
+    return json.loads(json.dumps(obs, default=str))
+
+def oracle_optset(c, obs):
+    if obs[0] != 'ok': return f"the option history raised {obs}"
+    state = {'lsb0': False, 'bytealigned': False, 'mxfp_overflow': 'saturate'}
+    log = []
+    if len(obs[1]) != len(c['steps']): return f"{len(obs[1])} observations for {len(c['steps'])} steps"
+    for st, ob in zip(c['steps'], obs[1]):
+        if st[0] == 'set':
+            _, name, spec, how = st
+            raised = ob[1] == 'err'
+            desc = f"{'del options.' + name if how == 'del' else 'options.' + name + (' += ' if how == 'iadd' else ' = ') + repr(spec[1] if len(spec) > 1 else spec[0]) + ' (' + spec[0] + ')'}"
+            log.append(desc + (' -> refused' if raised else ' -> accepted'))
+            before = dict(state)
+            if name in state and not raised and how in ('assign', 'setattr_type'):
+                if name == 'mxfp_overflow':
+                    if spec_is_mode(spec): state[name] = spec[1]
+                    else:
+                        # not one of the two documented modes and yet not refused: whatever is in force now has at least to be one of the two modes, and the encodings have to follow it
+                        if ob[3][2] not in ('saturate', 'overflow'):
+                            return f"after {log}: the assignment was not refused and options.mxfp_overflow now reads {ob[3][2]!r}, which is not one of the modes 'saturate' / 'overflow'"
+                        state[name] = ob[3][2]
+                elif spec[0] == 'notruth': return f"after {log}: a value without a truth value was accepted for options.{name}"
+                else: state[name] = bool(spec_value(spec))
+            elif name in state and not raised: return f"after {log}: the {how} was not refused"
+            elif name in state and raised and how in ('assign', 'setattr_type') and ((name == 'mxfp_overflow' and spec_is_mode(spec)) or (name != 'mxfp_overflow' and spec[0] == 'b')):
+                return f"after {log}: a documented value was refused ({ob[2]})"
+            want = [state['lsb0'], state['bytealigned'], state['mxfp_overflow']]
+            if ob[3] != want:
+                return (f"after {log}: the options read (lsb0, bytealigned, mxfp_overflow) = {ob[3]}; the caller's successful assignments so far leave {want}"
+                        + (" - a refused assignment has to leave every option exactly as it was" if raised else ''))
+        else:
+            sub = dict(st[1], mode=state['mxfp_overflow'])
+            if sub['op'] == 'kept':
+                if state['lsb0'] and sub['how'] not in ('dtype_build', 'scaled_build', 'dtype_of_dtype_build', 'bitarray_setattr'): continue
+                v = val_of(sub['val'])
+                exp = ref_bits(sub['fmt'], KEPT_SCALE if sub['how'].startswith('scaled') else None, v, sub['mode'])
+                if tuple(ob[1]) != ('ok', exp):
+                    return (f"after the option history {log} the setting in force is mxfp_overflow={sub['mode']!r} (the last successful assignment); {sub['fmt']} of {v!r} through an object made earlier in this history "
+                            f"({sub['how']}{', scale ' + str(KEPT_SCALE) if sub['how'].startswith('scaled') else ''}) gave {ob[1]}, the code of the value under that setting is {exp}")
+                continue
+            if state['lsb0'] and not (sub['op'] == 'encode_val' and sub['route'] in LSB0_OK): continue         # (token order under lsb0 is another property's business)
+            got = ob[1]
+            got = tuple(got) if sub['op'] != 'array' else ('ok', got[1]) if got[0] == 'ok' else tuple(got)
+            m = oracle_new(sub, got)
+            if m: return f"after the option history {log} the setting in force is mxfp_overflow={state['mxfp_overflow']!r} (the last successful assignment); " + m
+    return None
+
 def kind(c): return c['op'] + ':' + c.get('fmt', '*')
 
 def xcanon(v):
@@ -487,9 +692,10 @@ def run_encode_val(c):
         if r == 'array_setslice':
             a = Array(dt(), 2); a[0:1] = [v]; return a.data.bin
         raise AssertionError(r)
+    lsb0_before = bitstring.options.lsb0
     if c.get('lsb0') and r in LSB0_OK: bitstring.options.lsb0 = True      # the code of a value does not depend on the bit numbering
     try: return attempt(f)
-    finally: bitstring.options.lsb0 = False
+    finally: bitstring.options.lsb0 = lsb0_before
 
 def packmix_call(c):
     parts, pos, kw = [], [], {}
@@ -578,8 +784,15 @@ def run_scaled_read(c):
 def run_impl(c):
     import bitstring
     from bitstring import Bits, BitArray, Dtype, pack
-    op, name = c['op'], c.get('fmt')
+    if c['op'] == 'optset': return run_optset(c)
     bitstring.options.mxfp_overflow = c.get('mode', 'saturate')
+    return _dispatch(c)
+
+def _dispatch(c):
+    """the call(s) of one case under the option values in force"""
+    import bitstring
+    from bitstring import Bits, BitArray, Dtype, pack
+    op, name = c['op'], c.get('fmt')
     if op == 'encode_val': return run_encode_val(c)
     if op == 'packmix':
         fmt, pos, kw = packmix_call(c)
@@ -772,6 +985,7 @@ def oracle_new(c, obs):
         return None if tuple(obs) == ('ok', exp) else f"codes {[(n, hex(code), 'scale', sc) for n, sc, code in c['items']]} read by {c['route']} ({c['cls']}, {c['lead']} bits before): {obs}, decoded value x scale gives {exp}"
 
 def oracle(c, obs):
+    if c['op'] == 'optset': return oracle_optset(c, obs)
     if c['op'] in ('encode_val', 'packmix', 'array', 'scaled_read'): return oracle_new(c, obs)
     op, name = c['op'], c['fmt']
     if op == 'decode':
@@ -842,7 +1056,7 @@ def oracle(c, obs):
             exp = xcanon(v)
         return None if obs == ('ok', exp) else f"{name} code {code:#x} decodes to {obs}, expected {exp}"
 
-def nontrivial(c, obs): return c['op'] in ('encode_half', 'encode_float', 'other', 'encode_val', 'packmix', 'array')
+def nontrivial(c, obs): return c['op'] in ('encode_half', 'encode_float', 'other', 'encode_val', 'packmix', 'array', 'optset')
 def classify(c, obs): return None
 def cpyfloat(f):
     if f != f: return 'PyNaN'
@@ -855,7 +1069,7 @@ def cpyfloat(f):
 CT = {'p4binary': ('enc_p4', 'clamp_p4'), 'p3binary': ('enc_p3', 'clamp_p3'), 'e3m2mxfp': ('enc_e3m2', 'clamp_e3m2'), 'e2m3mxfp': ('enc_e2m3', 'clamp_e2m3'), 'e2m1mxfp': ('enc_e2m1', 'clamp_e2m1')}
 SINGLE_CODE_ROUTES = ['kw', 'kw_len', 'build', 'token', 'pack_pos', 'pack_kw', 'pack_kw_len', 'pack_list_kw', 'pack_kw_unused', 'setattr', 'array_init', 'array_append', 'array_setitem', 'array_insert', 'array_extend']
 def coq_check(c, obs):
-    if c['op'] in ('packmix', 'array', 'scaled_read'): return None          # the Python oracle decides (the model has no Array / pack of several tokens here)
+    if c['op'] in ('packmix', 'array', 'scaled_read', 'optset'): return None          # the Python oracle decides (the model has no Array / pack of several tokens here)
     if c['op'] == 'encode_val':
         # one value of a table format, unscaled: the model's float_to_int on float(value) gives the observed code
         if c['fmt'] not in FMT or c['scale'] is not None or obs[0] != 'ok' or c['route'] not in SINGLE_CODE_ROUTES or len(obs[1]) != nbits(c['fmt']) or set(obs[1]) - {'0', '1'}: return None
